@@ -19,6 +19,11 @@ CLAIMED = {
    note="Trusted: Coq kernel + vm_compute; Kernels.v's modelling of a word access as an access to the bytes it covers (LP64 little-endian non-SSE path); alignment exists only on the C side of the correspondence; extraction + drivers. No axioms.",
    technique="Coq proof over hand-written loop-faithful models + extracted-model-vs-C correspondence under ASan",
    ref="3/C13"),
+ "C17": dict(
+   text="Machine-checked proof (Coq, no axioms) that the Gallina model of the sparse matrix (two consistent families of strictly increasing lists + entry-pool counters; find/insert with the C's last-entry shortcuts and front walks) refines the abstract set of (row, column) pairs: find = membership, insert adds exactly one pair and is idempotent, delete removes exactly one, clear empties, bulk insertion (copy, copyrows, copycols, copy_filled_matrix, dense->sparse) and copy yield the stated sets, every traversal is strictly increasing and enumerates exactly its row/column, and blocks*1024 = free + live entries in every reachable state (so free releases everything), for all dimensions and all operation sequences. Tied to the C by comparing result, all row and column traversals and the pool summary after every operation of generated sequences (extracted model vs C under ASan) plus an independent python set oracle.",
+   note="Trusted: Coq kernel; Sparse.v models the linked lists by what their traversals enumerate, pointer surgery itself is only observed under ASan; BLOCK = 1024 is compared with of_mod2sparse_block on every run; extraction + drivers. No axioms.",
+   technique="Coq refinement proof (model -> abstract set) by invariant preservation + extracted-model-vs-C correspondence after every operation",
+   ref="3/C17"),
  "C19": dict(
    text="Machine-checked proof (Coq + Flocq) about the Gallina function that tools/c2gallina.py generates from of_rand.c on every run: for every state in 1..2^31-2 the next state is 16807*s mod (2^31-1) (Carta's split = modular multiplication, never 0), seeding accepts exactly 1..2^31-2, the 10,000th state from 1 is 1043618065, the returned value is RFC 5170's binary64 expression, lies in 0..maxv-1 for every maxv <= 2^24 (also for products above 2^53) and equals the exact floor below 2^53. All 2^31-2 states and all maxv at once; the compiled C is tied in by a differential run against the extracted model plus an exact-integer oracle.",
    note="Trusted: Coq kernel + vm_compute; c2gallina translator and CSem.v (meaning of C's UINT64 and double operators); Flocq 4.1.0; stdlib axioms of the reals (sig_forall_dec, sig_not_dec, functional_extensionality_dep, classic) as printed by Print Assumptions; extraction (ExtrOcamlBasic) and the C/OCaml drivers for the correspondence.",
